@@ -293,3 +293,11 @@ def error_discipline(ctx, rule, bodies):
                 ok = (b.key, name) in DISCARD_TABLE
                 ctx.ob(rule + ".discard", b.key, name, ok, "error-discarding adapter on Result<_, darling::Error>")
     return n
+
+
+def unit_rejects_non_words(ctx, rule, core):
+    """`Flag::from_meta` unwrap_err()s the result of `<()>::from_meta(non-path)`: sound only while `()`
+    overrides nothing but from_word (every other form then falls to a rejecting default hook)."""
+    unit = [i for i in core["impls"] if i["trait"] == "darling_core::from_meta::FromMeta" and i["self"] == "()"]
+    ctx.ob(rule, "<() as FromMeta>", "overridden hooks", len(unit) == 1 and unit[0]["items"] == ["from_word"],
+           "`()` overrides %s; Flag::from_meta (used by the derive-time `flatten` option and by Flag fields) calls unwrap_err() on <()>::from_meta for every non-path item" % [u["items"] for u in unit])
